@@ -1,6 +1,7 @@
 package main
 
 import (
+	"go/token"
 	"fmt"
 	"go/types"
 	"strings"
@@ -335,4 +336,189 @@ func c18DynamicImportEdges(p *Prog) *RuleResult {
 	}
 	r.Anchor("the dynamic-imports step of the per-chunk loop", found)
 	return r
+}
+
+// C18/R7 (also C20/R8) spawn-then-write.
+//
+// The isolated hash of a chunk is computed on its own goroutine (generateIsolatedHashInParallel
+// spawns generateIsolatedHash(chunk, …)), which reads the chunk's pieces, source-map bytes, legal
+// comments, … through the chunk pointer. Everything it reads must be complete when the goroutine
+// starts: a store into one of those fields after the spawn races with the hash goroutine, and the
+// hash — hence the file name — covers either the old or the new value depending on the schedule.
+// Rule, for every `go f(p, …)` with a statically known f and a pointer argument p, and for every
+// one-level wrapper W(p) that contains such a spawn on its own parameter: in the function that
+// makes the spawn (calls the wrapper), no store to a field of *p that f (or its static callees, two
+// levels) reads through that parameter is reachable from the spawn.
+func spawnThenWrite(p *Prog, name string) *RuleResult {
+	r := NewRule(name, "after a goroutine is started on a pointer (directly or through a one-level wrapper) the spawning function no longer stores into the fields of the pointee that the goroutine reads")
+	// fields read through parameter k of fn (owner.field), two call levels
+	type rk struct {
+		fn *ssa.Function
+		k  int
+	}
+	memo := map[rk]map[string]bool{}
+	var readSet func(fn *ssa.Function, k int, depth int) map[string]bool
+	readSet = func(fn *ssa.Function, k int, depth int) map[string]bool {
+		key := rk{fn, k}
+		if m, ok := memo[key]; ok {
+			return m
+		}
+		m := map[string]bool{}
+		memo[key] = m
+		if fn == nil || fn.Blocks == nil || k >= len(fn.Params) {
+			return m
+		}
+		prm := fn.Params[k]
+		for _, f := range withClosures(fn) {
+			eachInstr(f, func(b *ssa.BasicBlock, in ssa.Instruction) {
+				switch x := in.(type) {
+				case *ssa.FieldAddr:
+					if x.X == ssa.Value(prm) {
+						// a read: the field address is loaded (not only stored to)
+						if x.Referrers() != nil {
+							for _, rf := range *x.Referrers() {
+								if _, isStore := rf.(*ssa.Store); !isStore {
+									m[namedTypeName(x.X.Type())+"."+fieldAddrName(x)] = true
+								}
+							}
+						}
+					}
+				case *ssa.Call:
+					if depth < 2 {
+						if callee := x.Call.StaticCallee(); callee != nil {
+							for ai, a := range x.Call.Args {
+								if a == ssa.Value(prm) {
+									for fk := range readSet(callee, ai, depth+1) {
+										m[fk] = true
+									}
+								}
+							}
+						}
+					}
+				}
+			})
+		}
+		return m
+	}
+	// spawns: (function, instruction, pointer value, read set, description)
+	type spawn struct {
+		fn   *ssa.Function
+		at   ssa.Instruction
+		ptr  ssa.Value
+		rs   map[string]bool
+		desc string
+	}
+	var spawns []spawn
+	wrappers := map[rk]spawn{} // wrapper function + param index
+	for _, fn := range p.ModuleFuncs() {
+		eachInstr(fn, func(b *ssa.BasicBlock, in ssa.Instruction) {
+			g, ok := in.(*ssa.Go)
+			if !ok {
+				return
+			}
+			callee := g.Call.StaticCallee()
+			if callee == nil || callee.Blocks == nil {
+				return
+			}
+			for ai, a := range g.Call.Args {
+				if _, isPtr := a.Type().Underlying().(*types.Pointer); !isPtr {
+					continue
+				}
+				rs := readSet(callee, ai, 0)
+				if len(rs) == 0 {
+					continue
+				}
+				sp := spawn{fn, in, a, rs, "go " + FuncName(callee)}
+				spawns = append(spawns, sp)
+				for pi, prm := range fn.Params {
+					if a == ssa.Value(prm) {
+						wrappers[rk{fn, pi}] = sp
+					}
+				}
+			}
+		})
+	}
+	for _, fn := range p.ModuleFuncs() {
+		eachInstr(fn, func(b *ssa.BasicBlock, in ssa.Instruction) {
+			c, ok := in.(*ssa.Call)
+			if !ok {
+				return
+			}
+			callee := c.Call.StaticCallee()
+			if callee == nil {
+				return
+			}
+			for ai, a := range c.Call.Args {
+				if w, ok := wrappers[rk{callee, ai}]; ok {
+					spawns = append(spawns, spawn{fn, in, a, w.rs, FuncName(callee) + " (" + w.desc + ")"})
+				}
+			}
+		})
+	}
+	for _, sp := range spawns {
+		r.Instances++
+		key := FuncName(sp.fn) + " after " + sp.desc
+		// stores into read fields through the same pointer reachable from the spawn
+		bad := ""
+		after := false
+		check := func(in ssa.Instruction) {
+			st, ok := in.(*ssa.Store)
+			if !ok {
+				return
+			}
+			fa, ok := st.Addr.(*ssa.FieldAddr)
+			if !ok || canonPtr(fa.X) != canonPtr(sp.ptr) {
+				return
+			}
+			fk := namedTypeName(fa.X.Type()) + "." + fieldAddrName(fa)
+			if sp.rs[fk] && bad == "" {
+				bad = fk + " at " + p.Pos(st.Pos())
+			}
+		}
+		blk := sp.at.Block()
+		for _, x := range blk.Instrs {
+			if x == sp.at {
+				after = true
+				continue
+			}
+			if after {
+				check(x)
+			}
+		}
+		seen := map[*ssa.BasicBlock]bool{}
+		work := append([]*ssa.BasicBlock{}, blk.Succs...)
+		for len(work) > 0 {
+			x := work[len(work)-1]
+			work = work[:len(work)-1]
+			if seen[x] {
+				continue
+			}
+			seen[x] = true
+			for _, xi := range x.Instrs {
+				check(xi)
+			}
+			work = append(work, x.Succs...)
+		}
+		if bad != "" {
+			r.Fail(key, p.Pos(sp.at.Pos()), "the goroutine started here reads "+bad[:strings.Index(bad, " at ")]+" through the pointer it was given, and the spawning function stores into that field afterwards ("+bad+"): the goroutine sees the old or the new value depending on the schedule (for the isolated hash: the chunk's name then does not cover its source map)")
+		} else {
+			r.OK(key, true, fmt.Sprintf("no store into the %d field(s) the goroutine reads is reachable from the spawn", len(sp.rs)))
+		}
+	}
+	r.Anchor("goroutines started on a pointer whose fields they read", len(spawns) >= 2)
+	return r
+}
+
+// canonPtr: a pointer kept in a local variable cell that is assigned once (a variable captured by
+// a closure is reloaded from its cell at every use) is the value that was stored into the cell.
+func canonPtr(v ssa.Value) ssa.Value {
+	if u, ok := v.(*ssa.UnOp); ok && u.Op == token.MUL {
+		if al, ok := u.X.(*ssa.Alloc); ok {
+			if sv := uniqueStoreTo(al); sv != nil {
+				return sv
+			}
+			return al
+		}
+	}
+	return v
 }
